@@ -199,3 +199,35 @@ Proof.
     rewrite Er'. replace (v * 1000 - s - dirs_in_msat hs - A * 1000 - fee * 1000) with ((v * 1000 - s - dirs_in_msat hs - A * 1000) + (- fee) * 1000) by lia.
     rewrite Z.div_add by lia. rewrite <- Er'. lia.
 Qed.
+
+(** ** Witnesses of the two findings on the unchanged tree (see design/C01.md) *)
+
+(** F2: the NON-funder's reported limit is not honoured by a funder peer. State of schedule
+    [f1a] (anchors channel of 100000 sat, feerate 1000, zero reserves): the funder (node 0) has
+    99000 sat of which 96871999 msat are in a committed outbound HTLC; node 1 owns 1000 sat.
+    Node 1's [get_available_balances] (generated) reports limit = 1000000 >= minimum; once that HTLC
+    is committed, node 0's forward-time check ([can_accept_incoming_htlc]: the generated
+    [get_next_commitment_stats] on its own commitment with ONE additional fee-spike-buffer HTLC) is
+    [Err], while the same check without the buffer HTLC is [Ok]. *)
+Lemma limit_not_accepted_by_funder_peer_witness :
+  let k := mkChannelConstraints 354 0 354 0 1 100000000 50 in
+  let sender := get_channel_stats false false 100000 1000000 [mkHTLCAmountDirection false 96871999] 0 1000 false
+                  (Some 1000) (1000 * 197628) k CT_Anchors in
+  let receiver_htlcs := [mkHTLCAmountDirection false 1000000; mkHTLCAmountDirection true 96871999] in
+  (exists st, sender = ROk st /\
+     ab_next_outbound_htlc_limit_msat (cs_available_balances st) = 1000000 /\
+     ab_next_outbound_htlc_minimum_msat (cs_available_balances st) <= 1000000) /\
+  is_ok (get_next_commitment_stats true true 100000 99000000 receiver_htlcs 1 1000 false (Some 1000) 354 CT_Anchors) = false /\
+  is_ok (get_next_commitment_stats true true 100000 99000000 receiver_htlcs 0 1000 false (Some 1000) 354 CT_Anchors) = true.
+Proof.
+  cbv zeta. split; [eexists; split; [vm_compute; reflexivity|]; vm_compute; split; [reflexivity|discriminate]|].
+  split; vm_compute; reflexivity.
+Qed.
+
+(** F1: with the balances of schedule [f2b] (funder holds 1540 sat) the closing transaction for the
+    funder's own minimum fee at 5000 sat/kw (3370 sat) cannot be built: [build_closing_transaction]
+    errs where a cooperative close paying the affordable fee was possible. *)
+Lemma coop_close_fee_above_funder_balance_witness :
+  is_ok (build_closing true false 100000 1540000 3370 354) = false /\
+  is_ok (build_closing true false 100000 1540000 1540 354) = true.
+Proof. split; vm_compute; reflexivity. Qed.
